@@ -137,12 +137,19 @@ type faultyGetter struct {
 	failAt int
 	mode   string // "panic" | "error"
 	n      int
+	caller uint64 // goroutine id of the caller of the verification (0: unknown)
 }
 
 func (g *faultyGetter) Get(url string) (map[string][]string, []byte, error) {
 	g.n++
 	if g.n == g.failAt {
 		if g.mode == "panic" {
+			if g.caller != 0 && core.GoID() != g.caller {
+				// the code under test calls its getter from a goroutine of its own: a panic there would
+				// not reach the caller but kill the process (simulator included); fail the fetch instead
+				core.GlobalCount("getter_panic_turned_into_error_on_a_foreign_goroutine", 1)
+				return nil, nil, fmt.Errorf("simulated getter failure at fetch %d (panic suppressed: not on the caller's goroutine)", g.n)
+			}
 			panic("simulated getter crash at fetch " + fmt.Sprint(g.n))
 		}
 		return nil, nil, fmt.Errorf("simulated getter failure at fetch %d", g.n)
